@@ -30,6 +30,10 @@ pub struct TreeCase {
     pub extras: Vec<(u8, u8, u8)>,
     pub order_sel: u16,
     pub again: bool,
+    /// wide mode: both roots are stars whose kids carry the labels selected by these two
+    /// masks over an 18-label pool (wide vertices with overlapping label sets)
+    #[serde(default)]
+    pub wide: Option<(u32, u32)>,
 }
 
 #[derive(Debug, Clone, PartialEq, Eq, Serialize, Deserialize)]
@@ -42,6 +46,40 @@ pub struct TreeConcrete {
 
 fn tree_labels() -> [Lab; 4] {
     [Lab::Alpha(0), Lab::Str("foo".into()), Lab::Greek('ρ'), Lab::Str("bar".into())]
+}
+
+fn wide_labels() -> Vec<Lab> {
+    let mut v: Vec<Lab> = (0..10).map(Lab::Alpha).collect();
+    v.extend(["foo", "bar", "abcdefgh", "k1", "k2"].iter().map(|s| Lab::Str((*s).to_string())));
+    v.extend([Lab::Greek('ρ'), Lab::Greek('x'), Lab::Greek('φ')]);
+    v
+}
+
+/// A star: the root plus one kid per set bit of the mask (at most n kids), plus the
+/// ordinary generated sub-tree hanging below the first kid.
+fn shape_wide(mask: u32, seeds: &[NodeSeed], n: usize) -> Vec<(Option<usize>, Option<Lab>)> {
+    let labels = wide_labels();
+    let mut nodes: Vec<(Option<usize>, Option<Lab>)> = vec![(None, None)];
+    for (i, l) in labels.iter().enumerate() {
+        if (mask >> i) & 1 == 1 && nodes.len() - 1 < n.min(13) {
+            nodes.push((Some(0), Some(l.clone())));
+        }
+    }
+    if nodes.len() > 1 && n >= 2 {
+        let below = shape(seeds, n);
+        let base = nodes.len();
+        for (p, l) in below.iter().skip(1).take(3) {
+            let parent = match p {
+                Some(0) | None => 1,
+                Some(k) => base + k - 1,
+            };
+            // a tree built by binds is one group: at most 16 members
+            if parent < nodes.len() && nodes.len() < 16 {
+                nodes.push((Some(parent), l.clone()));
+            }
+        }
+    }
+    nodes
 }
 
 /// Shape a tree from node seeds: (parent index, label) per node; node 0 is the root.
@@ -75,8 +113,11 @@ fn node_data(s: &NodeSeed) -> (Option<Vec<u8>>, bool) {
 }
 
 fn make_h(case: &TreeCase, n: usize, with_extras: bool) -> TreeSpec {
-    let sh = shape(&case.h, n);
-    let hcap = 12usize;
+    let sh = match case.wide {
+        Some((_, mh)) if !with_extras => shape_wide(mh, &case.h, n),
+        _ => shape(&case.h, n),
+    };
+    let hcap = if case.wide.is_some() && !with_extras { 24usize } else { 12usize };
     // arbitrary distinct ids
     let mut free: Vec<usize> = (0..hcap).collect();
     let mut nodes = vec![];
@@ -166,7 +207,10 @@ fn make_calls(case: &TreeCase, cfg: Cfg) -> Option<(Vec<Call>, Vec<usize>)> {
     // vertices that the junk phase left behind (from NextIdAdd) are read to stay neutral: they are ungrouped and stay
     let leftovers = r.m.alive();
     // g: a tree over absent ids
-    let sh = shape(&case.g, cfg.n);
+    let sh = match case.wide {
+        Some((mg, _)) => shape_wide(mg, &case.g, cfg.n),
+        None => shape(&case.g, cfg.n),
+    };
     let mut free = r.m.absent_ids();
     if free.len() < sh.len() {
         return None;
@@ -332,14 +376,19 @@ fn tree_strategy() -> BoxedStrategy<TreeCase> {
         proptest::collection::vec((any::<u8>(), any::<u8>(), any::<u8>()), 0..=4),
         any::<u16>(),
         any::<bool>(),
+        proptest::option::weighted(0.2, (any::<u32>(), any::<u32>())),
     )
-        .prop_map(|(n_sel, cap_sel, junk, g, h, left_sel, extras, order_sel, again)| TreeCase { n_sel, cap_sel, junk, g, h, left_sel, extras, order_sel, again })
+        .prop_map(|(n_sel, cap_sel, junk, g, h, left_sel, extras, order_sel, again, wide)| {
+            // wide stars want sparse-ish masks so that the union often fits: AND two draws
+            let wide = wide.map(|(a, b)| (a & a.rotate_left(7) | (b & 0x111), b & b.rotate_left(5) | (a & 0x111)));
+            TreeCase { n_sel, cap_sel, junk, g, h, left_sel, extras, order_sel, again, wide }
+        })
         .boxed()
 }
 
 fn case_cfg(case: &TreeCase) -> Cfg {
-    let n = gen::pick_n(case.n_sel);
-    let need = case.g.len() + case.h.len() + 2 * case.junk.len() + 6;
+    let n = if case.wide.is_some() && case.n_sel & 1 == 0 { 16 } else { gen::pick_n(case.n_sel) };
+    let need = case.g.len() + case.h.len() + 2 * case.junk.len() + 6 + if case.wide.is_some() { 40 } else { 0 };
     let cap = gen::pick_cap(case.cap_sel).max(need);
     Cfg { n, cap }
 }
@@ -435,7 +484,7 @@ impl Engine for TreeEngine {
         let Some((mut calls, gids)) = make_calls(case, cfg) else {
             return CaseReport { events: vec!["construction_closed"], evaluations: 1, ..Default::default() };
         };
-        let left = gids[idx(u16::from(case.left_sel) << 8, gids.len())];
+        let left = if case.wide.is_some() && !self.extras && case.left_sel & 3 != 0 { gids[0] } else { gids[idx(u16::from(case.left_sel) << 8, gids.len())] };
         let h = make_h(case, cfg.n, self.extras);
         let mut hs = std::collections::hash_map::DefaultHasher::new();
         (cfg, &calls, &h, left).hash(&mut hs);
@@ -487,8 +536,14 @@ impl Engine for TreeEngine {
         if out.max_groups_alive >= 2 {
             events.push("g.spans_2plus_groups");
         }
-        if case.g.len() == 1 {
+        if case.g.len() == 1 && case.wide.is_none() {
             events.push("g.singleton");
+        }
+        if case.wide.is_some() {
+            events.push("wide_stars");
+            if out.max_labels >= 9 {
+                events.push("wide.vertex_with_9plus_labels");
+            }
         }
         if merges >= 2 {
             events.push("merged_twice");
